@@ -125,11 +125,23 @@ func gosymCall(fr *frame, name string, args []value) value {
 	case "gosym_Choice": // concrete int in [0,n) by forking
 		n := int(asInt64(args[1]))
 		nm := argString(args[0])
+		if P.inputSet[nm] {
+			panic(engineAbort{"unsupported", "gosym_Choice: duplicate name " + nm})
+		}
 		t := newInput(nm, term.BV(64))
-		addPC(term.Cmp("bvult", t, term.Const(64, uint64(n))))
-		return int(concretise(symv{t, true}))
+		for k := 0; k < n-1; k++ {
+			if branchFresh(term.Eq(t, term.Const(64, uint64(k)))) {
+				return k
+			}
+		}
+		addPC(term.Eq(t, term.Const(64, uint64(n-1))))
+		return n - 1
 	case "gosym_Fork":
-		return Branch(newInput(argString(args[0]), term.Bool))
+		nm := argString(args[0])
+		if P.inputSet[nm] {
+			panic(engineAbort{"unsupported", "gosym_Fork: duplicate name " + nm})
+		}
+		return branchFresh(newInput(nm, term.Bool))
 	case "gosym_Concrete": // concretise an int value by forking
 		if s, ok := args[0].(symv); ok {
 			return int(concretise(s))
@@ -161,6 +173,12 @@ func gosymCall(fr *frame, name string, args []value) value {
 		}
 		P.Asserts[label]++
 		r, m := S.Check(term.Not(c), sortedInputs())
+		if r == solver.Sat && SP != nil {
+			r, m = confirmSat(term.Not(c), sortedInputs())
+			if r == solver.Unsat {
+				P.Notes = append(P.Notes, "abstract-cex-refuted")
+			}
+		}
 		switch r {
 		case solver.Sat:
 			recordViolation(Violation{Label: label, Kind: "assert", Model: m, Decisions: decisionsString(P.Prefix[:P.Pos])})
@@ -174,7 +192,14 @@ func gosymCall(fr *frame, name string, args []value) value {
 		}
 		return nil
 	case "gosym_Reach":
-		P.Reached[argString(args[0])] = true
+		l := argString(args[0])
+		if SP != nil && !reachConfirmed[l] {
+			if r, _ := confirmSat(nil, nil); r != solver.Sat {
+				return nil
+			}
+			reachConfirmed[l] = true
+		}
+		P.Reached[l] = true
 		return nil
 	case "gosym_And":
 		return boolVal(term.And(truthTerm(args[0]), truthTerm(args[1])))
@@ -235,3 +260,4 @@ func gosymCall(fr *frame, name string, args []value) value {
 }
 
 var apiExt = map[string]externalFn{}
+var reachConfirmed = map[string]bool{}
